@@ -447,7 +447,57 @@ fn digit_runs(d: &[u8]) -> Vec<(usize, usize)> {
 }
 
 /// One random hostile mutation of the script (in place). Returns a short label.
+/// A valid bzip2 stream that inflates to `mib` MiB of zeros (made once per process with the system bzip2).
+fn bzip2_bomb(mib: usize) -> Option<&'static [u8]> {
+    static BOMBS: std::sync::OnceLock<Vec<(usize, Vec<u8>)>> = std::sync::OnceLock::new();
+    if cfg!(miri) {
+        return None;
+    }
+    let all = BOMBS.get_or_init(|| [24usize, 40].iter().filter_map(|m| crate::models::valve::bzip2(&vec![0u8; m << 20]).map(|b| (*m, b))).collect());
+    all.iter().find(|(m, _)| *m == mib).map(|(_, b)| b.as_slice())
+}
+
+/// Replace an A2S reply by a compressed split answer whose bzip2 stream is valid but inflates far beyond the size
+/// it declares (the declared size itself is within every limit).
+fn compression_bomb(rng: &mut Rng, s: &mut [Vec<Vec<u8>>]) -> bool {
+    let cands: Vec<(usize, usize)> = s.iter().enumerate().flat_map(|(c, ds)| ds.iter().enumerate().filter(|(_, d)| d.len() > 5 && d[.. 4] == [0xff, 0xff, 0xff, 0xff] && [0x44u8, 0x45, 0x49, 0x6d].contains(&d[4])).map(move |(j, _)| (c, j))).collect();
+    if cands.is_empty() {
+        return false;
+    }
+    let Some(bomb) = bzip2_bomb(*rng.pick(&[24usize, 40])) else { return false };
+    let (c, j) = *rng.pick(&cands);
+    let declared: u32 = *rng.pick(&[0u32, 1, 100, 1400, 65536, 1 << 20, 4 << 20]);
+    let id = rng.u32() | 0x8000_0000;
+    let with_size_field = rng.chance(3, 4);
+    let n = if rng.bool() { 1 } else { 2 };
+    let cut = if n == 1 { bomb.len() } else { rng.usize(1, bomb.len() - 1) };
+    let mut frags: Vec<Vec<u8>> = Vec::new();
+    for (i, part) in [&bomb[.. cut], &bomb[cut ..]].iter().take(n).enumerate() {
+        let mut d = vec![0xfe, 0xff, 0xff, 0xff];
+        d.extend(id.to_le_bytes());
+        d.push(n as u8);
+        d.push(i as u8);
+        if with_size_field {
+            d.extend(1248u16.to_le_bytes());
+        }
+        if i == 0 {
+            d.extend(declared.to_le_bytes());
+            d.extend(rng.u32().to_le_bytes());
+        }
+        d.extend(*part);
+        frags.push(d);
+    }
+    if n == 2 && rng.bool() {
+        frags.swap(0, 1);
+    }
+    s[c].splice(j ..= j, frags);
+    true
+}
+
 pub fn mutate(rng: &mut Rng, s: &mut Vec<Vec<Vec<u8>>>, extreme_bias: bool) -> &'static str {
+    if rng.chance(1, 20) && compression_bomb(rng, s) {
+        return "compression-bomb";
+    }
     let total = script_len(s);
     let class = if extreme_bias { rng.below(9) } else { rng.below(16) };
     match class {
